@@ -92,6 +92,12 @@ class FieldBase(metaclass=ABCMeta):
         state.pop("_cache_methods", None)  # delete method cache if present
         return state
 
+    def __setstate__(self, state: dict[str, Any]) -> None:
+        self.__dict__.update(state)
+        # arrays are restored independently of each other, so the valid data needs to
+        # be turned into a view of the full data again
+        self._data_full = self._data_full
+
     @property
     def data(self) -> NumericArray:
         """:class:`~numpy.ndarray`: discretized data at the support points."""
